@@ -93,6 +93,11 @@ def menu(M, seen):
     add = ops.append
     add({"op": "copy"})
     add({"op": "deepcopy"})
+    # the same through the standard library's protocols
+    add({"op": "std", "how": "copy.copy"})
+    add({"op": "std", "how": "copy.deepcopy"})
+    # (pickle.dumps of a frame is not offered: the library's Pickle route is write_pickle / read_pickle, C12)
+    add({"op": "clear"})   # DataFrame.clear() RETURNS an empty frame (it overrides dict.clear)
     add({"op": "ctor"})
     if n >= 1 and k >= 1:
         add({"op": "rt_lod"})
@@ -116,6 +121,13 @@ def menu(M, seen):
         if k >= 2:
             add({"op": "slice_cols", "cols": list(range(k - 1, -1, -1))})
         add({"op": "slice_off_cols", "cols": [0]})
+        for form in ("neg", "array"):   # (the documentation asks for integer positions: booleans are integers there)
+            add({"op": "slice_cols", "cols": [0] if k == 1 else [0, k - 1], "form": form})
+            if form != "neg":
+                # (slice_off(cols=[-1]) drops nothing on the unchanged tree - negative COLUMN positions are honoured by
+                #  slice only; column positions are not the subject of any of the twenty properties, so this is noted
+                #  in DESIGN section 6.5 and not explored)
+                add({"op": "slice_off_cols", "cols": [k - 1], "form": form})
         for m in sorted({0, 1, n, n + 1}):
             add({"op": "head", "n": m})
         for m in sorted({0, 1, n, n + 1}):
@@ -359,6 +371,15 @@ def apply_real(d, M, op):
         return d.copy(), []
     if o == "deepcopy":
         return d.deepcopy(), []
+    if o == "std":
+        import copy, pickle
+        if op["how"] == "copy.copy":
+            return copy.copy(d), []
+        if op["how"] == "copy.deepcopy":
+            return copy.deepcopy(d), []
+        raise ValueError(op["how"])
+    if o == "clear":
+        return d.clear(), []
     if o == "ctor":
         return di.DataFrame(d), []
     if o == "ctor_bcast":
@@ -380,10 +401,14 @@ def apply_real(d, M, op):
         return d.slice(rows=op["rows"]), []
     if o == "slice_off":
         return d.slice_off(rows=op["rows"]), []
-    if o == "slice_cols":
-        return d.slice(cols=op["cols"]), []
-    if o == "slice_off_cols":
-        return d.slice_off(cols=op["cols"]), []
+    if o in ("slice_cols", "slice_off_cols"):
+        cols = list(op["cols"])
+        k = M.ncol
+        if op.get("form") == "neg":
+            cols = [i - k for i in cols]                    # the same positions counted from the end
+        elif op.get("form") == "array":
+            cols = np.array(cols, dtype="int64")
+        return (d.slice(cols=cols) if o == "slice_cols" else d.slice_off(cols=cols)), []
     if o in ("head", "tail"):
         return getattr(d, o)(op["n"]), []
     if o == "drop_na":
@@ -487,6 +512,7 @@ def apply_real(d, M, op):
     if o == "popitem":
         d.popitem()
         return d, []
+
     if o == "colnames":
         form = op.get("form", "list")
         d.colnames = (x for x in op["new"]) if form == "generator" else tuple(op["new"]) if form == "tuple" else list(op["new"])
@@ -499,8 +525,10 @@ def apply_model(M, op):
     o = op["op"]
     n = M.nrow
     flags = {}
-    if o in ("copy", "deepcopy", "ctor", "rt_lod", "rt_json", "rt_pandas", "rt_arrow"):
+    if o in ("copy", "deepcopy", "std", "ctor", "rt_lod", "rt_json", "rt_pandas", "rt_arrow"):
         return M.copy(), flags
+    if o == "clear":
+        return T([]), flags
     if o == "filter":
         return M.filter(op["mask"]), flags
     if o == "filter_out":
@@ -602,6 +630,7 @@ def apply_model(M, op):
     if o == "popitem":
         M2.popitem()
         return M2, flags
+
     if o == "colnames":
         M2.set_colnames(op["new"])
         # a full-length assignment renames positionally, so afterwards colnames is the assigned list;
@@ -652,6 +681,12 @@ def invariants(d, M, seen):
         return f"nrow/ncol/colnames raised {type(e).__name__}: {e}"
     if ncol != len(names) or colnames != names or list(d) != names:
         return f"ncol {ncol} / colnames {colnames} / iteration {list(d)} disagree with keys {names}"
+    try:
+        columns = list(d.columns)
+    except Exception as e:
+        return f"columns raised {type(e).__name__}: {e}"
+    if len(columns) != len(names) or any(c is not dict.__getitem__(d, nm) for c, nm in zip(columns, names)):
+        return f"columns is not the list of the stored columns in order"
     if names and nrow != lens[0]:
         return f"nrow {nrow} but columns have {lens[0]} elements"
     if not names and nrow != 0:
@@ -757,7 +792,7 @@ def step(d, M, seen, op, rec, clauses, case_of):
             if "C06" in clauses:
                 rec.violation(o, "receiver-changed", case_of(op), f"receiver changed by a method documented as returning a new object")
         # copy() is documented as shallow, and DataFrame(frame) is what it calls
-        if "C06" in clauses and isinstance(out, di.DataFrame) and o not in ("copy", "ctor"):
+        if "C06" in clauses and isinstance(out, di.DataFrame) and o not in ("copy", "ctor") and not (o == "std" and op["how"] == "copy.copy"):
             msg = shares(out, [d] + operands)
             if msg:
                 rec.violation(o, "shares-memory", case_of(op), msg)
